@@ -328,6 +328,9 @@ def build(case: dict[str, Any], upto: int | None = None) -> programs.Program:
         specs=lambda: [jax.ShapeDtypeStruct(s, d) for s, d in sig],
         signature=lambda b: sig,
         int_classes=["benign", "negative", "moderate"],
+        # no denormal-producing classes: ORT's kernels flush subnormals to zero, XLA does not, and a composition
+        # turns that into sign / floor / comparison flips (the sentinels own the edge classes, operator by operator)
+        float_classes=["benign", "uniform", "halfint", "integral", "large"],
         source="generated",
     )
 
